@@ -26,6 +26,8 @@ pub struct IoStats {
   pub hard_errors: u64,
   pub zero_returns: u64,
   pub calls_after_error: u64,
+  #[serde(default)]
+  pub bytes_after_error: u64,
   pub flushes: u64,
 }
 
@@ -63,7 +65,13 @@ impl Write for SimWriter {
     if self.failed {
       // a caller that keeps writing after a hard error is visible here
       self.stats.calls_after_error += 1;
-      return Err(io::Error::new(kind_of(&self.plan.fail_kind), self.tag()));
+      if !self.plan.transient {
+        return Err(io::Error::new(kind_of(&self.plan.fail_kind), self.tag()));
+      }
+      // transient failure: the sink accepts again
+      self.accepted.extend_from_slice(buf);
+      self.stats.bytes_after_error += buf.len() as u64;
+      return Ok(buf.len());
     }
     if buf.is_empty() {
       return Ok(0);
